@@ -4,7 +4,7 @@
    record consulted for a target without input). *)
 From Zinoma.Model Require Import Bytes Cfg Codec Incremental.
 From Zinoma.Proofs Require Import Codec CodecRoundtrip CodecWrite IncrementalKeys Incremental IncrementalCycle IncrementalPinned
-  IncrementalExamples.
+  IncrementalExamples IncrementalCompose.
 
 (* the state computed at a completion in world w1 could be stored (env_ok: what `serialize` accepts) and is on disk in full
    (whatever follows it); in the world w' nothing among the input and output resources has changed: same file sets, every
@@ -32,9 +32,8 @@ Proof. exact no_input_runs. Qed.
    invocation starts no script of a target with inputs — under (H): once a target's state has been recorded, no later script of
    the same invocation changes a resource that target declares. PROVED HERE: the per-target step — a cycle that completes and
    records (through the machine of Model/Incremental.v, write included), followed by an invocation in a world where nothing the
-   target declares has changed, ends `CySkipped` at its first step with the record untouched. MISSING: the composition over all
-   targets of one invocation (each closure target runs once, in dependency order — C08/C01 of the engine slices) which turns (H)
-   into `unchanged_all` for every target. *)
+   target declares has changed, ends `CySkipped` at its first step with the record untouched. The composition over all the
+   targets of one invocation is C03_rerun_untouched_tree below. *)
 Theorem C03_rerun_untouched_tree_partial : forall hash c c' d0 e,
   cycle_ok hash c -> cmds_consistent_all (cy_w1 c) (cy_input c) (cy_output c) ->
   decide_skip hash (cy_w0 c) d0 (cy_input c) (cy_output c) = false ->
@@ -46,6 +45,24 @@ Theorem C03_rerun_untouched_tree_partial : forall hash c c' d0 e,
   let d1 := c_disk (run_cycle hash ckey_eqb true c None d0) in
   forall n, cycle_run hash ckey_eqb true c' (S n) (cycle_init d1) = {| c_phase := PEnd CySkipped; c_disk := d1 |}.
 Proof. exact rerun_unchanged_skips. Qed.
+
+(* THE COMPOSITION (C03_rerun_untouched_tree). `inv`: the targets the first invocation executed, each with its cycle, in the
+   order in which they ran; their state files are pairwise distinct (each target once: C08; distinct paths: C18); each ran
+   its script (was not skipped), succeeded, recorded its state in full, and nothing it declares differs between the world its
+   record was computed in and the world W in which the second invocation looks at it — (H): no later script of the same
+   invocation, and nothing afterwards, changed a resource it declares. `inv2`: any subset of those targets, in any order, looked
+   at in W. Then every target of the second invocation is skipped at its first step — no script runs — and every state file is
+   left exactly as the first invocation wrote it. *)
+Theorem C03_rerun_untouched_tree :
+  forall (hash : bytes -> N) (inv inv2 : list (rtarget * cycle)) (st0 : state_store) (W : iworld),
+    NoDup (map (fun tc => spath (fst tc)) inv) ->
+    (forall t c, In (t, c) inv -> built_and_unchanged hash st0 W t c) ->
+    (forall t c', In (t, c') inv2 -> exists c, In (t, c) inv /\ same_target_in W c c') ->
+    let st1 := run_invocation hash inv st0 in
+    (forall t c', In (t, c') inv2 ->
+       run_cycle hash ckey_eqb true c' None (st1 (spath t)) = {| c_phase := PEnd CySkipped; c_disk := st1 (spath t) |}) /\
+    (forall q, run_invocation hash inv2 st1 q = st1 q).
+Proof. exact rerun_untouched_tree. Qed.
 
 (* pinned code (DESIGN.md §7 D5): the same command text declared in two directories whose outputs differ — the state recorded
    in a world does not match that very world: rebuilt on every invocation of an untouched tree *)
